@@ -223,8 +223,8 @@ class C13(F.Check):
                 for cn, op in CMPS:
                     pair("pt_" + cn, ct, ut, "bool", xy, "return %s %s %s;" % (p("x"), op, p("y")), "return x %s y;" % op, rawfam=cn)
                 # point read-out through in(): x + (zero origin displacement)
-                pair("pt_in", ct, ut, ct, x1, "return %s.in(%s{});" % (p("x"), U), "return static_cast<%s>(x + static_cast<%s>(0));" % (ct, ct),
-                     rawfam="plus_zero")
+                pair("pt_in", ct, ut, ct, x1, "return %s.in(%s{});" % (p("x"), U), "return x;", rawfam="identity")
+                pair("pt_in_rep", ct, ut, ct, x1, "return %s.in<%s>(%s{});" % (p("x"), ct, U), "return x;", rawfam="identity")
                 # --- closed facts
                 dq, dr = "std::declval<%s>()" % Q, "std::declval<%s>()" % ct
                 dp = "std::declval<%s>()" % PT
@@ -323,24 +323,14 @@ class C13(F.Check):
                 return T.TRUE, ub_equiv_post(K[au](*vs), K[rw](*vs), nan_ct)
             obs.append(F.Ob(obname, vars_, fn, routes=F.FP_ROUTES if fp else F.CMP_ROUTES, key=key, kernels=[au, rw],
                             note="au operator == raw operator on bare rep: same trap condition, same result bits when no trap"))
-            if key["op"] == "pt_in":
+            if key["op"] in ("pt_in", "pt_in_rep"):
                 # QuantityPoint::in(unit) adds the (zero) origin displacement: identity on integral reps; on floating reps it is
                 # the raw `x + 0`, which is not the identity on bits (-0.0 -> +0.0, signalling NaN quieted): recorded, not claimed
-                ct0 = args[0][0]
-                if not F.ct_is_float(ct0):
-                    def ifn(K, x, au=au):
-                        e = K[au](x)
-                        return T.TRUE, T.and_(T.not_(e.ub), T.eq(e.ret, x))
-                    obs.append(F.Ob("pt_in_ident:" + obname.split(":", 1)[1], vars_, ifn, routes=F.CMP_ROUTES, key=key, kernels=[au],
-                                    note="make_quantity_point<U>(x).in(U{}) == x for integral reps"))
-                else:
-                    def nfn(K, x, au=au, ct0=ct0):
-                        e = K[au](x)
-                        return T.TRUE, T.and_(T.not_(T.fp_isnan(F.FMT_OF[ct0], x)), T.ne(e.ret, x))
-                    obs.append(F.Ob("pt_in_not_bit_identity:" + obname.split(":", 1)[1], vars_, nfn, kind="stretch", expect="sat",
-                                    routes=F.FP_ROUTES, key=key, kernels=[au],
-                                    note="observation (not a claim): some non-NaN x is not returned bit-for-bit by QuantityPoint::in (x = -0.0)"))
-                    pt_in_nonident += 1
+                def ifn(K, x, au=au):
+                    e = K[au](x)
+                    return T.TRUE, T.and_(T.not_(e.ub), T.eq(e.ret, x))
+                obs.append(F.Ob("pt_in_ident:" + obname.split(":", 1)[1], vars_, ifn, routes=F.CMP_ROUTES, key=key, kernels=[au],
+                                note="make_quantity_point<U>(x).in(U{}) == x bit-for-bit, every rep (D16 fixed: no x + 0)"))
             if witness:
                 def wfn(K, au=au, args=args):
                     cs = [T.const_bv(3 - i, F.CTYPES[t][1]) for i, (t, _) in enumerate(args)]
